@@ -52,7 +52,7 @@ func vfHangScenarios() []vfScenario {
 		cfg.Quiet = true
 		cfg.Direct = true
 		cfg.Bufsize = 4096
-		sc = append(sc, vfScenario{name, cfg, tops, specs})
+		sc = append(sc, vfScenario{Name: name, Cfg: cfg, Tops: tops, Specs: specs})
 	}
 	add("down-p4-b64", vfCfg{Dir: "down"}, []string{"first.bin", "second.bin"}, files)
 	add("up-p4-bin", vfCfg{Dir: "up", Binary: true}, []string{"first.bin", "second.bin"}, files)
